@@ -1,13 +1,17 @@
 #!/bin/bash
-# applies every kept seeded change to /repo in turn, runs the property's quick check, restores /repo; prints which were detected.
-# usage: harness/seeds_regress.sh [name-prefix]
-cd /repo && git status --short | grep -q . && { echo "/repo not clean"; exit 2; }
+# applies every kept seeded change in turn, runs the property's quick check, restores the tree; prints which were detected.
+# usage: harness/seeds_regress.sh [name-prefix] [repo-copy]
+#   with a repo copy (e.g. $VP_RUN_REPO) nothing touches /repo and the checks run against the copy (VERIF_REPO)
+here="$(cd "$(dirname "$0")/.." && pwd)"
+repo="${2:-/repo}"
+cd "$repo" && git status --short | grep -q . && { echo "$repo not clean"; exit 2; }
+[ -x "$here/lean/.lake/build/bin/pyctr_model" ] || (cd "$here/lean" && lake build >/dev/null 2>&1)
 miss=0
-for d in /verif/seeded/${1:-}*; do
+for d in "$here"/seeded/${1:-}*; do
   n=$(basename "$d"); p=${n%%-*}
-  if ! (cd /repo && git apply "$d/patch.diff" 2>/dev/null); then echo "$n: patch does not apply to the current tree"; miss=$((miss+1)); continue; fi
-  out=$(cd /verif && timeout 900 ./check "$p" 2>&1 | grep -m1 VIOLATION)
-  git -C /repo checkout -q -- .
+  if ! (cd "$repo" && git apply "$d/patch.diff" 2>/dev/null); then echo "$n: patch does not apply to the current tree"; miss=$((miss+1)); continue; fi
+  out=$(cd "$here" && VERIF_REPO="$repo" timeout 900 ./check "$p" 2>&1 | grep -m1 VIOLATION)
+  git -C "$repo" checkout -q -- .
   if [ -n "$out" ]; then echo "$n: detected ($out)"; else echo "$n: MISSED"; miss=$((miss+1)); fi
 done
 echo "seeds not detected: $miss"
